@@ -18,13 +18,24 @@ RULE = ("cases = generated models (2-D: Q/keras Conv2D, DepthwiseConv2D, "
         "Add/Multiply/Concatenate fork-merge blocks, (Q)GlobalAveragePooling or "
         "Flatten, Q/keras Dense; 1-D: Q/keras Conv1D stacks; dense-only stacks) "
         "over kernel 1..5, strides 1..3, dilation 1..2, same/valid(/causal), "
-        "channels 1..8, spatial 4..12, x two pe() option sets x one "
+        "channels 1..8, spatial 4..12, x QTools options (keras_quantizer / "
+        "keras_accumulator in none, fp32, fp16, int8, int16, int32; "
+        "for_reference) x two pe() option sets x one "
         "include-energy dictionary.  Non-trivial = the model has a conv-like "
         "layer with stride>1, dilation>1 or non-valid padding, or a pooling or "
         "merge layer; distinct by hash of the case description.")
 ASSUMPTIONS = [
     "checks run under TF_USE_LEGACY_KERAS=1 (tf_keras); QTools(process="
-    "'horowitz', is_inference=False)",
+    "'horowitz', is_inference=False) with the documented options "
+    "keras_quantizer / keras_accumulator (type of weights / MAC units of "
+    "non-quantized layers) and for_reference (whole model costed in those types)",
+    "floating-point units cost the table constants (fp16 mul 1.1 / add 0.4, "
+    "fp32 mul 3.7 / add 0.9 pJ); a multiplier with floating-point operand(s) "
+    "and a forced fixed-point product type is costed as a fixed-point "
+    "multiplier as wide as the widest floating-point operand; in for_reference "
+    "mode a merge layer keeps the adder width derived from its inputs (widest "
+    "input + 1 carry bit), only its output type is replaced (comment in "
+    "generate_layer_data_type_map)",
     "MAC convention: dense loop nest, one MAC per (output element, kernel tap, "
     "connected input channel), taps on zero padding are counted; output "
     "positions are enumerated by sliding the window, not taken from Keras "
@@ -54,7 +65,11 @@ REQUIRED_LABELS = {
               "count:QGlobalAveragePooling2D", "count:BatchNormalization",
               "strided", "dilated", "pad:same", "pad:valid", "pad:causal",
               "energy_checked", "op_cost_checked",
-              "op_cost_checked:keras_avgpool", "w:dram", "w:sram", "w:fixed",
+              "op_cost_checked:keras_avgpool", "op_cost_checked:mul:fp16",
+              "op_cost_checked:mul:fp32", "op_cost_checked:acc:fp16",
+              "op_cost_checked:acc:fp32", "op_cost_checked:acc:fixed",
+              "op_cost_checked:mul:fixed", "qt:ref:1", "qt:ref:0",
+              "qt:kq:fp16", "qt:ka:fp16", "qt:ka:int32", "qt:kq:int8", "w:dram", "w:sram", "w:fixed",
               "a:dram", "a:sram", "io:0", "io:1", "sum_checked", "op:mul",
               "op:shifter", "op:mux"],
 }
@@ -196,7 +211,8 @@ def ref_entries(case, i, rep, ins, outs, sinks, opt, count):
   elif k in ("add", "mul"):
     key = G.KERAS_CLASS[k] + "_quantizer"
     op = E.merge_op_cost(G.KERAS_CLASS[k], count, len(sizes), rep[key],
-                         rep["input_quantizer_list"])
+                         rep["input_quantizer_list"],
+                         reference=bool((case.get("qt") or {}).get("ref")))
   elif k in ("act", "kact", "maxpool", "flatten", "cat", "qavgpool", "qgap"):
     op = 0.0
   elif k in ("avgpool", "gap"):
@@ -236,10 +252,23 @@ def oracle(ctx, case):
     ctx.tick(case, labels=["case"] + sorted(labels), nontrivial=nontrivial)
     return fails
 
+  # documented QTools options that decide the multiplier / accumulator types of
+  # keras (non-quantized) layers and of the whole model in "reference" mode
+  qo = case.get("qt") or {}
+  kwargs = {}
+  if qo.get("kq"):
+    kwargs["keras_quantizer"] = qo["kq"]
+  if qo.get("ka"):
+    kwargs["keras_accumulator"] = qo["ka"]
+  if qo.get("ref"):
+    kwargs["for_reference"] = True
+  labels.update(["qt:kq:%s" % qo.get("kq"), "qt:ka:%s" % qo.get("ka"),
+                 "qt:ref:%d" % int(bool(qo.get("ref")))])
   try:
     with _quiet():
       qt = run_qtools.QTools(model, process="horowitz",
-                             source_quantizers=[src_q], is_inference=False)
+                             source_quantizers=[src_q], is_inference=False,
+                             **kwargs)
     rep = qt._output_dict  # pylint: disable=protected-access
   except Exception as e:  # pylint: disable=broad-except
     fails.append(("qtools_raises", core.exc_signature(e), repr(e)[:300]))
@@ -334,6 +363,14 @@ def oracle(ctx, case):
           labels.add("op_cost_checked")
           if n["k"] in ("avgpool", "gap"):
             labels.add("op_cost_checked:keras_avgpool")
+          # arithmetic kind of the unit that is costed (reported types)
+          for part in ("multiplier", "accumulator", "pool_sum_accumulator",
+                       "Add_quantizer", "Multiply_quantizer"):
+            if rep[name].get(part):
+              labels.add("op_cost_checked:%s:%s" % (
+                  "merge" if part.endswith("_quantizer") else
+                  "acc" if part.endswith("accumulator") else "mul",
+                  E.unit_kind(rep[name][part])))
         labels.add("energy_checked")
         if not any(_close(v, E.rounded(r)) for r in vals):
           sig = {"layer": cls, "entry": key}
@@ -352,6 +389,14 @@ def oracle(ctx, case):
               sig["cause"] = "bias_size_taken_as_kernel_shape[-1]"
           else:
             sig["op_type"] = (rep[name].get("multiplier") or {}).get("op_type")
+            # unit that is costed: floating point (16 / 32 bit) or fixed point
+            for part in ("accumulator", "pool_sum_accumulator", "Add_quantizer",
+                         "Multiply_quantizer"):
+              if rep[name].get(part):
+                sig["unit"] = E.unit_kind(rep[name][part])
+                break
+            if (case.get("qt") or {}).get("ref"):
+              sig["for_reference"] = True
           fails.append(("energy_entry", sig,
                         "%s %s %s: reported %r, restated %r | opt %r" %
                         (name, cls, key, v, [E.rounded(r) for r in vals][:3], opt)))
@@ -416,7 +461,7 @@ def case_strategy(quick):
   kq_st = st.one_of(
       G.st_qb(st, bits=(2, 8)), G.st_qb(st, bits=(2, 8)),
       st.builds(lambda b: {"t": "po2", "bits": b, "mv": None}, st.integers(3, 5)),
-      st.just({"t": "bin"}), st.just({"t": "ter"}))
+      st.just({"t": "bin"}), st.just({"t": "ter"}), G.st_stochastic_q(st))
   bq_st = G.st_qb(st, bits=(2, 8), ints=(0, 3), alpha=(None,))
   avgq_st = st.builds(lambda b: {"t": "qb", "bits": b, "int": 0, "sym": 1, "kn": 1,
                                  "alpha": None}, st.integers(4, 8))
@@ -587,8 +632,15 @@ def case_strategy(quick):
     for c in classes:
       if draw(st.integers(0, 2)) == 0:
         cfgd[c] = draw(st.lists(st.sampled_from(KEYS), unique=True, max_size=4))
-    return {"in_shape": in_shape, "src": src, "nodes": nodes, "pe": pe,
+    case = {"in_shape": in_shape, "src": src, "nodes": nodes, "pe": pe,
             "cfg": cfgd, "alt": [draw(st.integers(1, 4)), draw(st.integers(1, 4))]}
+    # QTools options (drawn last: earlier draws keep their meaning)
+    if draw(st.integers(0, 2)) != 0:
+      modes = [None, "fp32", "fp16", "fp16", "int8", "int16", "int32"]
+      case["qt"] = {"kq": draw(st.sampled_from(modes)),
+                    "ka": draw(st.sampled_from(modes)),
+                    "ref": draw(st.sampled_from([False, True, True]))}
+    return case
 
   return case19()
 
@@ -648,6 +700,17 @@ def fixed_cases():
                 "pe": pes[j % 2], "cfg": cfgd, "alt": [2, 3]})
   out.append({"in_shape": [7, 6, 2], "src": qb(6, 0), "nodes": b, "pe": pes[0],
               "cfg": {"QDense": ["op_cost"]}, "alt": [1, 4]})
+  # the same models under the QTools options keras_quantizer /
+  # keras_accumulator / for_reference (16/32-bit float and int8/16/32 units)
+  for j, (shape, nodes, qt) in enumerate((
+      ([12, 12, 3], a, {"kq": "fp16", "ka": "fp16", "ref": True}),
+      ([12, 12, 3], a, {"kq": None, "ka": "fp16", "ref": False}),
+      ([7, 6, 2], b, {"kq": "int8", "ka": "int32", "ref": True}),
+      ([11, 2], c, {"kq": "fp32", "ka": "fp32", "ref": True}),
+      ([11, 2], c, {"kq": "int16", "ka": None, "ref": False}),
+      ([7, 6, 2], b, {"kq": "fp16", "ka": None, "ref": True}))):
+    out.append({"in_shape": shape, "src": qb(6, 0), "nodes": nodes,
+                "pe": pes[j % 2], "cfg": cfgd, "alt": [2, 3], "qt": qt})
   return out
 
 
